@@ -237,7 +237,8 @@ def run_l1(ctx):
         if same:
             pb = list(pa)
         wa = [rng.randrange(1, 17) / 4.0 for _ in pa] if rng.random() < 0.6 else None
-        wb = (wa if same else [rng.randrange(1, 17) / 4.0 for _ in pb]) if (wa is not None) else None
+        # the two trees are weighted independently of each other (weighted x unweighted included)
+        wb = wa if same else ([rng.randrange(1, 17) / 4.0 for _ in pb] if rng.random() < 0.6 else None)
 
         def mk(pts, w):
             if not pts:
@@ -358,7 +359,7 @@ def l3_spec(rng, kind_hint=None):
     spec = dict(region=region[0], ra0=region[1], dec0=region[2], flavour=flavour, unit=unit, nbins=nb, zmin=zmin, zmax=zmax, cosmo=cosmo,
                 closed=rng.choice(["right", "left"]), auto=rng.random() < 0.4, npatch=rng.choice([2, 3, 4, 5]),
                 nscales=rng.choice([1, 1, 2, 2, 3]), scale_order=rng.randrange(6), rweight=rng.choice([None, None, None, -1.0, 0.5]), resolution=rng.choice([None, 3, 10]),
-                weights=rng.random() < 0.6, count_rr=rng.random() < 0.5, rands=rng.choice(["both", "unk", "ref"]),
+                weights=rng.choice([True, True, False, "mixed", "mixed"]), count_rr=rng.random() < 0.5, rands=rng.choice(["both", "unk", "ref"]),
                 prior=rng.random() < 0.25, dseed=rng.randrange(10 ** 6))
     # the geometry is drawn from its own generator (the sequence of the draws above is what it was before)
     import random
@@ -433,7 +434,10 @@ def run_l3_case(ctx, spec, cid, terms, metas, cov):
                 pts.extend(shaped(rng, cents[k], targets[k], 1 if shape == "single" else m, shape))
             else:
                 pts.extend(cluster(rng, cents[k][0], cents[k][1], m, spread))
-        w = [rng.randrange(1, 9) / 2.0 for _ in pts] if spec["weights"] else None
+        # weights: all catalogs, none, or mixed (each catalog on its own: weighted x unweighted pair counts)
+        wmode = spec["weights"]
+        weighted = (rng.random() < 0.5) if wmode == "mixed" else bool(wmode)
+        w = [rng.randrange(1, 9) / 2.0 for _ in pts] if weighted else None
         z = [float(rng.choice(zvals)) for _ in pts] if with_z else None
         return pts, w, z
     tight, wide = spacing * 0.15, spacing * 0.45
